@@ -35,7 +35,7 @@ func init() {
 		Rule: "seeded Swagger 2.0 descriptions with one operation per consumes-list shape (empty, concrete types, type/*, */*, one or several entries with parameters, a bare type next to its parameterised spelling, mixes; declared per operation or at spec level, in one description in ten at both levels with different lists; one request in fifty carries a second Content-Type line; four operations in five declare a body parameter, one in five declares no parameter at all; one operation in seven declares a formData parameter instead and mostly consumes form media types) x all 7 methods, " +
 			"API default media type present (plain or with parameters)/absent, Accept header absent / acceptable / admitting nothing the operation produces, tagged consumers registered API-wide for (most of) 14 concrete types (the two form media types among them) and optionally for wildcard keys; requests with Content-Type drawn from: admitted (exactly / through the default / through an entry with parameters / through type/* / through */*), " +
 			"non-admitted pool types, near misses of admitted types, literal wildcard types, absent, empty, malformed and grey-zone values, each spelled plain / with parameters / with OWS around ';' / in mixed letter case; body signalled by Content-Length (with and without the header line), " +
-			"by ContentLength=-1 (chunked, or without any transfer coding), by a real Content-Length or chunked request over a loopback server, or absent (no body, Content-Length: 0, empty stream of unknown length). Every case is executed through both entry points (untyped pipeline via RoutesHandler, and Context.BindValidRequest with a RequestBinder that decodes with route.Consumer - called directly on a Context made by NewContext, or, for half of the requests, from the operation handler of a RoutableAPI (gen.GeneratedAPI: RouteInfo, BindValidRequest, Respond) served by a Context made by NewRoutableContext, the constructor generated servers use). One description in ten declares no produces and has no default producer. " +
+			"by ContentLength=-1 (chunked, or without any transfer coding), by a real Content-Length or chunked request over a loopback server, or absent (no body, Content-Length: 0, empty stream of unknown length). Every case is executed through both entry points (untyped pipeline via RoutesHandler, and Context.BindValidRequest with a RequestBinder that decodes with route.Consumer - called directly on a Context made by NewContext, or, for half of the requests, from the operation handler of a RoutableAPI (gen.GeneratedAPI: RouteInfo, BindValidRequest, Respond) served by a Context made by NewRoutableContext, the constructor generated servers use; for a third of the requests - half of those to formData operations - that RequestBinder binds with route.Binder, the route's reflective binder, instead of decoding with route.Consumer itself). One description in ten declares no produces and has no default producer. " +
 			"oracle written from the statement: own RFC 7231 media-type classifier and own admission function. non-trivial = the request carries a body, or is body-less but carries a Content-Type that the gate would refuse; distinct by (consumes shape, default present, admission class, header kind+spelling, body signalling, method)",
 		Assumptions: []string{
 			"consumes entries and the API default are lower case; entries with parameters are spelled 'type/subtype;name=value', 'type/subtype; name=value' or with whitespace before the ';' (legal OWS of RFC 7231 3.1.1.1: the same media type); wildcard entries carry no parameters",
@@ -44,7 +44,8 @@ func init() {
 			"when no consumer is registered API-wide under the exact media type of an admitted request, the status is not judged (the statement presupposes a registered consumer); only 'no consumer other than a matching wildcard-key one ran' and agreement are judged",
 			"body presence is what the request signals: ContentLength>0, or unknown length (-1) with at least one readable byte; Content-Length: 0 and an empty chunked stream are body-less",
 			"every operation produces application/json; an Accept header that admits nothing concerns the gate only in that it must not replace a due 415/400: a body-less or admitted request carrying such a header may be answered 406 with nothing run (the 406 clause itself is C07's)",
-			"an operation with a formData parameter is gated like any other: a non-admitted or malformed type is refused 415/400 with nothing run, through both entry points; for admitted types only 'no foreign consumer ran' is judged (the reflective formData binder has its own opinion on the request's type and a multipart body needs a boundary), except admitted application/x-www-form-urlencoded bodies, which both entry points must serve; a body-less request to such an operation is judged for 'no consumer ran' only",
+			"an operation with a formData parameter is gated like any other: a non-admitted or malformed type is refused 415/400 with nothing run, through both entry points; for admitted types only 'no foreign consumer ran' is judged (the reflective formData binder has its own opinion on the request's type and a multipart body needs a boundary), except admitted application/x-www-form-urlencoded bodies, which both entry points must serve; a body-less request to such an operation (its one formData parameter is optional) is judged like every body-less request: whatever its Content-Type header says (a form type, another type, an unparsable value, nothing) it is not answered 415/400, no consumer runs, and both entry points serve it",
+			"the RequestBinder of the generated-server entry point either decodes the body with route.Consumer itself or binds with the route's own reflective binder (route.Binder.Bind with route.Params and route.Consumer): both are what an application may hand to BindValidRequest; the expectations are the same",
 			"a spec-level consumes list declared next to an operation's own list is overridden by it (Swagger 2.0); a request with two Content-Type field lines is judged for safety only: refused with nothing run when both lines name non-admitted types, a consumer that runs is the one of an admitted type that one of the lines names, the entry points agree",
 			"an operation that declares no body parameter is gated like any other (the statement quantifies over requests that carry a body); whether its body is decoded at all is not judged, only that nothing but the consumer of its media type decodes it",
 		},
@@ -91,6 +92,10 @@ type Case struct {
 	// Context made by NewContext; "routable" = the operation handler of a RoutableAPI (RouteInfo, BindValidRequest,
 	// Respond) served by the router of a Context made by NewRoutableContext
 	Entry2 string `json:"entry2,omitempty"`
+	// RouteBinder: the RequestBinder handed to BindValidRequest binds with the route's own reflective binder
+	// (route.Binder.Bind(r, route.Params, route.Consumer, &values)) instead of decoding the body with route.Consumer
+	// itself: the parameter binders (the formData one among them) then run behind the generated-server entry point too
+	RouteBinder bool `json:"entry2_binds_with_route_binder,omitempty"`
 }
 
 const urlencoded, multipart = "application/x-www-form-urlencoded", "multipart/form-data"
@@ -435,6 +440,8 @@ type env struct {
 
 	mu  sync.Mutex
 	cur *observation
+	// routeBinder: the RequestBinder of the request being served binds with route.Binder (Case.RouteBinder)
+	routeBinder bool
 
 	srv *httptest.Server
 	cli *http.Client
@@ -475,7 +482,23 @@ func (b *recBinder) BindRequest(r *http.Request, route *middleware.MatchedRoute)
 	if b.e.cur != nil {
 		b.e.cur.RouteCons = consumerTag(route.Consumer)
 	}
+	viaRouteBinder := b.e.routeBinder
 	b.e.mu.Unlock()
+	if viaRouteBinder {
+		if route.Binder == nil {
+			return errors.New(http.StatusInternalServerError, "binder: the matched route carries no Binder")
+		}
+		bound := map[string]interface{}{}
+		if err := route.Binder.Bind(r, route.Params, route.Consumer, &bound); err != nil {
+			return err
+		}
+		b.e.mu.Lock()
+		if b.e.cur != nil {
+			b.e.cur.Handler++
+		}
+		b.e.mu.Unlock()
+		return nil
+	}
 	declaresBody := false
 	if route.Operation != nil {
 		for _, p := range route.Operation.Parameters {
@@ -740,6 +763,9 @@ func (e *env) exec(c *Case, opIdx int, entry int) *observation {
 	path := fmt.Sprintf("/o%d", opIdx)
 	o := e.begin()
 	defer e.end()
+	e.mu.Lock()
+	e.routeBinder = entry == 2 && c.RouteBinder
+	e.mu.Unlock()
 	if strings.HasPrefix(c.BodyMode, "tcp-") {
 		e.startServer()
 		p := []byte(string(c.Payload))
@@ -874,6 +900,20 @@ func (e *expectation) extraFeature(c *Case) string {
 	return f
 }
 
+// formSkipFeature names, for a body-less request to a formData operation, what its Content-Type header says (the
+// header describes no body; the operation's own parameter binder is the second place that may look at it).
+func formSkipFeature(e *expectation) string {
+	switch {
+	case e.kind == hAbsent:
+		return ""
+	case e.kind != hValid:
+		return "+" + e.kind.String() + "-content-type-on-a-bodyless-form-request"
+	case e.mt == urlencoded || e.mt == multipart:
+		return "+form-content-type-on-a-bodyless-form-request"
+	}
+	return "+non-form-content-type-on-a-bodyless-form-request"
+}
+
 // owsEntryFor: the consumes list (or the API default) names mt with an entry that has whitespace before its ';'.
 func owsEntryFor(c *Case, mt string) bool {
 	if mt == "" {
@@ -952,9 +992,11 @@ func judgeEntry(c *Case, e *expectation, o *observation) []finding {
 		}
 		return fs
 	}
-	if c.FormParam && (e.verdict == "skip" || (e.verdict == "accept" && e.mt != urlencoded)) {
-		// a formData operation: the parameter binder has its own say on the request's type (either form type, whatever
-		// the request carries), and a multipart body needs a boundary: only 'no foreign consumer' is judged
+	if c.FormParam && e.verdict == "accept" && e.mt != urlencoded {
+		// a formData operation, a request WITH a body: the parameter binder has its own say on the body's type (either
+		// form type, whatever the request carries), and a multipart body needs a boundary: only 'no foreign consumer' is
+		// judged. (A request WITHOUT a body is judged like any other: "a request without a body is not subjected to the
+		// check" - the operation's only parameter is optional, so nothing else can refuse it.)
 		for _, t := range o.Consumers {
 			if !e.hasBody || (t != e.mt && !wildcardKeyMatches(t, e.mt)) {
 				add("wrong-consumer", e.verdict+e.extraFeature(c), "consumer %q ran for a formData operation (request type %q, body=%v)", t, e.mt, e.hasBody)
@@ -974,6 +1016,9 @@ func judgeEntry(c *Case, e *expectation, o *observation) []finding {
 			}
 		}
 		feat += "/" + c.BodyMode + e.extraFeature(c)
+		if c.FormParam {
+			feat += formSkipFeature(e)
+		}
 		if ran {
 			add("consumer-ran-without-body", feat, "consumers %v ran although the request carries no body", o.Consumers)
 		}
@@ -1109,6 +1154,9 @@ func judge(c *Case, e *expectation, o1, o2 *observation) []finding {
 	if c.Entry2 == "routable" {
 		rsuf, where2 = "+routable-context", "BindValidRequest (operation handler of a RoutableAPI on NewRoutableContext)"
 	}
+	if c.RouteBinder {
+		rsuf, where2 = rsuf+"+binding-with-route-binder", where2+", RequestBinder binding with route.Binder"
+	}
 	for _, f := range f2 {
 		if !in1[key(f)] {
 			f.text = where2 + ": " + f.text
@@ -1119,7 +1167,8 @@ func judge(c *Case, e *expectation, o1, o2 *observation) []finding {
 	// agreement of the two entry points
 	// (a formData operation: the reflective binder refuses what is no form, a generated binder need not: agreement is
 	// judged where the gate alone decides - refusals, and admitted urlencoded bodies)
-	formUnjudged := c.FormParam && !(e.verdict == "refuse415" || e.verdict == "refuse400" || (e.verdict == "accept" && e.mt == urlencoded))
+	// (a body-less request is served by both: neither the gate nor the form binder has a body to look at)
+	formUnjudged := c.FormParam && !(e.verdict == "skip" || e.verdict == "refuse415" || e.verdict == "refuse400" || (e.verdict == "accept" && e.mt == urlencoded))
 	if !formUnjudged && o1.Transport == "" && o2.Transport == "" && !o1.NoRoute && !o2.NoRoute && o1.Panic == "" && o2.Panic == "" {
 		feat := e.verdict + e.extraFeature(c)
 		if e.verdict == "accept" || e.verdict == "noreg" {
@@ -1152,7 +1201,7 @@ func fingerprint(c *Case, e *expectation) string {
 	if c.HasCT {
 		sp = spelling(string(c.CT))
 	}
-	return strings.Join([]string{c.Shape, strconv.FormatBool(c.Default != ""), strconv.FormatBool(c.Global), e.verdict, e.admit, e.kind.String(), sp, c.BodyMode, c.Method, e.accept, strconv.FormatBool(c.NoBodyParam), strconv.FormatBool(c.FormParam), strconv.FormatBool(len(c.SpecConsumes) > 0), strconv.FormatBool(c.HasCT2), strconv.FormatBool(c.NoProduces), c.Entry2}, "|")
+	return strings.Join([]string{c.Shape, strconv.FormatBool(c.Default != ""), strconv.FormatBool(c.Global), e.verdict, e.admit, e.kind.String(), sp, c.BodyMode, c.Method, e.accept, strconv.FormatBool(c.NoBodyParam), strconv.FormatBool(c.FormParam), strconv.FormatBool(len(c.SpecConsumes) > 0), strconv.FormatBool(c.HasCT2), strconv.FormatBool(c.NoProduces), c.Entry2, strconv.FormatBool(c.RouteBinder)}, "|")
 }
 
 func shapeOf(consumes []string) string {
@@ -1218,6 +1267,12 @@ func evalOn(m *mon.M, e *env, opIdx int, c *Case) ([]finding, *observation, *obs
 	}
 	if c.Entry2 == "routable" {
 		m.Class("entry2-on-routable-context:" + ex.verdict)
+	}
+	if c.RouteBinder {
+		m.Class("entry2-binds-with-route-binder:" + ex.verdict)
+	}
+	if c.FormParam && ex.verdict == "skip" {
+		m.Class("formdata-operation:bodyless" + formSkipFeature(&ex))
 	}
 	if ex.accept != "absent" {
 		m.Class("expect:" + ex.verdict + "/accept-" + ex.accept)
